@@ -66,6 +66,7 @@ def run(chk):
     slices(chk, wa, thorough)
     values(chk, wa)
     maps(chk, wa)
+    procs(chk, wa, thorough)
     chk.sample({"call": kernel.call(cs[0]), "want": kernel.expected_rt(cs[0], signed)})
     chk.sample({"call": kernel.call(cs[len(cs) // 2]), "want": kernel.expected_rt(cs[len(cs) // 2], signed)})
     chk.cov["exhaustive"] = True
@@ -147,6 +148,77 @@ def maps(chk, wa):
     for kind in ("int", "string"):
         c13.check_kind(chk, wa, kind, 5, paths, "transitions of WaMap", prefix="C01:maps")
     chk.cov["map_histories"] = len(paths)
+
+
+PROC_ATOM = {
+    "x++": "\tx++\n",
+    "y=x*2": "\ty = x * 2\n",
+    "print": "\tprintln(x, y)\n",
+    "defer-val": "\tdefer println(x)\n",
+    "defer-clo": "\tdefer func() { println(x) }()\n",
+    "closure-add": "\tf%d := func() { x += 10 }\n\tf%d()\n",
+    "copy-struct": "\tt = s\n\tt.v++\n\tprintln(s.v, t.v)\n",
+    "ptr-method": "\ts.Inc()\n",
+    "val-func": "\ty = incCopy(s)\n",
+    "copy-array": "\tb = a\n\tb[0] = x\n\tprintln(a[0], b[0])\n",
+    "ptr-store": "\tp%d := &x\n\t*p%d = y\n",
+    "field-store": "\ts.v = x\n",
+    "slice-alias": "\tsl%d := a[:]\n\tsl%d[1] = x\n",
+    "defer-dbl": "\tdefer func() { x *= 2 }()\n",
+    "defer-res": "\tdefer func() { r += x }()\n",
+}
+PROC_PRELUDE = ("type S :struct {\n\tv: int\n}\n\nfunc S.Inc() {\n\tthis.v++\n}\n\nfunc incCopy(s: S) => int {\n\ts.v++\n\treturn s.v\n}\n\n")
+
+
+def proc_fn(i, prog):
+    body = "".join((PROC_ATOM[a] % (k, k)) if "%d" in PROC_ATOM[a] else PROC_ATOM[a] for k, a in enumerate(prog))
+    return ("func prog%d() => (r: int) {\n\tx, y := 1, 0\n\ts, t := S{}, S{}\n\ta, b: [2]int\n\t_, _, _, _ = t, b, y, a\n" % i + body
+            + "\tprintln(x, y, s.v, t.v, a[0], a[1], b[0])\n\treturn x + y\n}\n\n")
+
+
+def procs(chk, wa, thorough):
+    """WaProc.tla: value/reference semantics and defer - every statement sequence up to length 3 (4 in thorough)"""
+    import os
+    res = common.run_tlc("lang", "WaProc", "proc4.cfg" if thorough else "proc.cfg", collect_prefix='<<"T"', timeout=3000)
+    if res.violated:
+        raise MachineryError("WaProc.tla violates " + res.violated)
+    chk.tlc(res, "WaProc (copies, aliases, closures, defer)")
+    ps = [json.loads(common.parse_printt(l, "T")[0]) for l in res.lines]
+    ps.sort(key=lambda p: p["prog"])
+    batches = list(common.chunks(list(enumerate(ps)), 250))
+    d = common.subdir("c01p")
+
+    def job(kb):
+        k, batch = kb
+        src = PROC_PRELUDE + "".join(proc_fn(i, p["prog"]) for i, p in batch)
+        src += "func main {\n" + "".join("\tprintln(\"P\", %d)\n\tprintln(prog%d())\n" % (i, i) for i, p in batch) + "}\n"
+        f = os.path.join(d, "p%d.wa" % k)
+        open(f, "w").write(src)
+        rc, so, se, to = common.run_child([wa, "run", f], timeout=300, cwd=d)
+        os.unlink(f)
+        return batch, rc, so, se, to
+    for batch, rc, so, se, to in common.parallel(job, list(enumerate(batches))):
+        got = {}
+        cur = None
+        for l in so.splitlines():
+            t = l.split()
+            if len(t) == 2 and t[0] == "P":
+                cur = int(t[1])
+                got[cur] = []
+            elif cur is not None:
+                got[cur].append(l.strip())
+        for i, p in batch:
+            chk.add("traces_validated_against_impl", 1)
+            want = [" ".join(str(v) for v in line) for line in p["out"]]
+            if i not in got:
+                chk.report("C01:procs:abort", "the program stops (status %s%s) before running %s: %s" % (rc, ", timeout" if to else "", "; ".join(p["prog"]), (se or so)[-200:]),
+                           {"program": p["prog"], "stderr": se[-300:]})
+                break
+            if got[i] != want:
+                chk.report("C01:procs:%s" % "+".join(sorted(set(p["prog"]))), "the statement sequence [%s] prints %s; Go's semantics give %s" % ("; ".join(p["prog"]), got[i], want),
+                           {"program": p["prog"], "source": proc_fn(i, p["prog"]), "got": got[i], "want": want})
+    chk.cov["proc_programs"] = len(ps)
+    chk.sample({"proc_program": ps[len(ps) // 2]})
 
 
 def replay(chk, path):
